@@ -38,7 +38,62 @@ def _z():
 # ---- geometry: real code on symbolic triangles ---------------------------------------------------------------------------
 
 
+def replay_geometry_scales():
+    """Native: geometric quantities of the octahedron scaled by 1e-6 .. 1e3 (and of a graded mesh with one tiny element): normals are unit vectors, volumes scale
+    with s^2, integration elements = 2 volumes, diameters scale with s and equal the circumscribed-circle diameter |a||b||a-b| / |a x b|, in the grid attributes and
+    in data('double')."""
+    warnings.simplefilter("ignore")
+    v0, e0 = SG.octa()
+    problems = []
+    ref = SG.make_grid(v0, e0)
+    for sc in (1e-6, 1e-4, 1e-2, 1.0, 1e3):
+        g = SG.make_grid(np.asarray(v0, dtype=float) * sc, e0)
+        d = g.data("double")
+        for name, nrm in (("grid.normals", g.normals), ("data.normals", d.normals)):
+            dev = float(np.abs(np.linalg.norm(nrm, axis=1) - 1).max())
+            if dev > 1e-12:
+                problems.append("scale %g: %s are not unit vectors (|n| - 1 up to %.3g)" % (sc, name, dev))
+        if np.abs(g.volumes / sc**2 - ref.volumes).max() > 1e-12 * ref.volumes.max():
+            problems.append("scale %g: volumes do not scale with s^2" % sc)
+        if np.abs(g.integration_elements - 2 * g.volumes).max() > 1e-12 * g.volumes.max():
+            problems.append("scale %g: integration elements != 2 volumes" % sc)
+        if np.abs(g.diameters / sc - ref.diameters).max() > 1e-11 * ref.diameters.max():
+            problems.append("scale %g: diameters do not scale with s" % sc)
+    # graded mesh: one corner element with legs 2e-4 in a unit-size mesh
+    v = np.array([[0.0, 0, 0], [2e-4, 0, 0], [0, 2e-4, 0], [1.0, 0, 0], [0, 1.0, 0]]).T
+    e = np.array([[0, 1, 2], [1, 3, 4], [1, 4, 2]]).T
+    g = SG.make_grid(v, e)
+    dev = float(np.abs(np.linalg.norm(g.normals, axis=1) - 1).max())
+    if dev > 1e-12:
+        problems.append("graded mesh: normal of the tiny element has length %.3g" % (1 - dev))
+    a, b = v[:, 1] - v[:, 0], v[:, 2] - v[:, 0]
+    want = np.linalg.norm(a) * np.linalg.norm(b) * np.linalg.norm(a - b) / np.linalg.norm(np.cross(a, b))
+    if abs(g.diameters[0] - want) > 1e-11 * want:
+        problems.append("graded mesh: diameter of the tiny element %.6g, definition %.6g" % (g.diameters[0], want))
+    return {"violates": bool(problems), "problems": problems[:6]}
+
+
+def ob_geometry_scales():
+    r = replay_geometry_scales()
+    if r["violates"]:
+        return violated("geometric quantities at extreme scales: %s" % "; ".join(r["problems"][:3]), witness={"problems": r["problems"]}, signature="geometry/scales",
+                        replay={"callable": "checks.c11:replay_geometry_scales", "kwargs": {}, "confirmed": True})
+    return held("octahedron at scales 1e-6 .. 1e3 and a graded mesh with a 2e-4 element")
+
+
 def ob_geometry():
+    try:
+        return _ob_geometry()
+    except S.Undecided as ex:
+        rp = replay_geometry_scales()
+        if rp["violates"]:
+            return violated("_compute_geometric_quantities leaves real arithmetic / branches on its data (%s) and fails natively: %s" % (ex, "; ".join(rp["problems"][:3])),
+                            witness={"problems": rp["problems"]}, signature="geometry/branch",
+                            replay={"callable": "checks.c11:replay_geometry_scales", "kwargs": {}, "confirmed": True})
+        return undecided("_compute_geometric_quantities cannot be executed symbolically (%s); the native contract at extreme scales holds" % ex)
+
+
+def _ob_geometry():
     """post: Grid._compute_geometric_quantities on generic vertices: normals unit and right-handed w.r.t. the vertex order, volume = |J1 x J2|/2,
     integration element = 2 volume, centroid = mean of the vertices, diameter = |J1||J2||J1-J2|/|J1 x J2|, Jacobian columns = edge vectors,
     J^-T^T J = I and J^-T = J (J^T J)^-1."""
@@ -436,6 +491,7 @@ def main():
     run.under_contract(G.Grid.refine)
     run.under_contract(G._create_barycentric_connectivity_array)
     run.add("Grid._compute_geometric_quantities::post", "post", ob_geometry)
+    run.add("geometry.extreme-scales", "bounded", ob_geometry_scales)
     run.add("Grid.refine::post", "post", ob_refinement, "refine")
     run.add("_create_barycentric_connectivity_array::post", "post", ob_refinement, "barycentric")
     for base in ("tetra", "fan3", "octa", "screen2", "two_tets") + (("cube12",) if thorough else ()):
